@@ -310,7 +310,10 @@ def pmatch( node, pattern, binds=None ):
         body = mod.body[0]
         _PAT_CACHE[pattern] = body.value if isinstance( body, ast.Expr ) else body
     b = Binds( binds or {} )
-    return b if _pm( node, _PAT_CACHE[pattern], b ) else None
+    pat = _PAT_CACHE[pattern]
+    if isinstance( node, ast.Expr ) and isinstance( pat, ast.expr ):
+        node = node.value				# an expression statement matches an expression pattern
+    return b if _pm( node, pat, b ) else None
 
 
 def _pm( n, p, b ):
@@ -318,7 +321,7 @@ def _pm( n, p, b ):
         if p.id == '__':
             return True
         if p.id in b:
-            return isinstance( n, ast.AST ) and ast.dump( b[p.id] ) == ast.dump( n )
+            return isinstance( n, ast.AST ) and ast.unparse( b[p.id] ) == ast.unparse( n )
         if not isinstance( n, ast.AST ):
             return False
         b[p.id] = n
@@ -342,6 +345,8 @@ def pfind( root, pattern, nested=True ):
     out = []
     it = ast.walk( root ) if nested else walk_no_nested( root, include_self=True )
     for n in it:
+        if isinstance( n, ast.Expr ):
+            continue				# its value is visited as well; avoid reporting it twice
         m = pmatch( n, pattern )
         if m is not None:
             out.append(( n, m ))
